@@ -188,3 +188,202 @@ pub fn huffman_decode(b: &[u8], len: usize) -> Huff {
     }
     Huff::RejectPaddingNotOnes
 }
+
+// ------------------------------------------------------------------------------------------------
+// RFC 9204 §4.5 field sections, stateless decoder (no dynamic table: capacity 0)
+
+use crate::qpack_static::STATIC_TABLE;
+
+pub const QMAX_FIELDS: usize = 3;
+pub const QMAX_STR: usize = 4;
+
+/// One decoded field: a static-table row index for the name (or literal name bytes) and literal value bytes
+/// (or the static row's value).
+#[derive(Copy, Clone)]
+pub struct QField {
+    pub name_static: Option<usize>,
+    pub name: [u8; QMAX_STR],
+    pub name_len: usize,
+    pub value_static: bool,
+    pub value: [u8; QMAX_STR],
+    pub value_len: usize,
+}
+
+impl QField {
+    pub const EMPTY: QField = QField {
+        name_static: None,
+        name: [0; QMAX_STR],
+        name_len: 0,
+        value_static: false,
+        value: [0; QMAX_STR],
+        value_len: 0,
+    };
+    pub fn name_size(&self) -> usize {
+        match self.name_static {
+            Some(i) => STATIC_TABLE[i].0.len(),
+            None => self.name_len,
+        }
+    }
+    pub fn value_size(&self) -> usize {
+        if self.value_static {
+            STATIC_TABLE[self.name_static.unwrap()].1.len()
+        } else {
+            self.value_len
+        }
+    }
+}
+
+#[derive(Copy, Clone, PartialEq, Eq)]
+pub enum QVerdict {
+    Accept,
+    /// not a valid RFC 9204 encoding for a decoder without dynamic table (truncated, bad index,
+    /// dynamic reference, non-zero Required Insert Count, bad Huffman, ...)
+    Malformed,
+    /// valid so far, but the RFC 9114 §4.2.2 size (sum of name + value + 32) exceeds the limit
+    TooLong,
+    /// outside the bounds of this reference (strings longer than QMAX_STR, more than QMAX_FIELDS lines)
+    OutOfBounds,
+}
+
+fn q_int(b: &[u8], len: usize, pos: usize, size: u8) -> Option<(u8, u128, usize)> {
+    // returns (flags, value, bytes consumed)
+    if pos >= len {
+        return None;
+    }
+    let mut w = [0u8; 12];
+    let mut i = 0;
+    while i < 12 {
+        if pos + i < len {
+            w[i] = b[pos + i];
+        }
+        i += 1;
+    }
+    let avail = if len - pos > 12 { 12 } else { len - pos };
+    match prefix_int_decode(size, &w, avail) {
+        PInt::Value(v, f, n, _) => Some((f, v, n)),
+        _ => None,
+    }
+}
+
+/// String literal with a (size)-bit prefix whose top bit is H. Returns (bytes, len, consumed) or Err(true) if out of
+/// this reference's bounds / Err(false) if malformed.
+fn q_string(b: &[u8], len: usize, pos: usize, size: u8) -> Result<([u8; QMAX_STR], usize, usize), bool> {
+    let (flags, l, n) = match q_int(b, len, pos, size - 1) {
+        Some(x) => x,
+        None => return Err(false),
+    };
+    let huff = flags & 1 == 1;
+    if l > (len - pos - n) as u128 {
+        return Err(false); // string runs past the end of the section
+    }
+    let l = l as usize;
+    let mut out = [0u8; QMAX_STR];
+    if !huff {
+        if l > QMAX_STR {
+            return Err(true);
+        }
+        let mut i = 0;
+        while i < QMAX_STR {
+            if i < l {
+                out[i] = b[pos + n + i];
+            }
+            i += 1;
+        }
+        Ok((out, l, n + l))
+    } else {
+        // Huffman-coded strings are outside this general reference (dedicated harnesses compare them with
+        // `huffman_decode`); the caller skips the comparison.
+        Err(true)
+    }
+}
+
+/// Reference stateless decode of the field section `b[..len]` under the size limit `limit`.
+pub fn qpack_decode(b: &[u8], len: usize, limit: u64) -> (QVerdict, [QField; QMAX_FIELDS], usize, u64) {
+    let mut fields = [QField::EMPTY; QMAX_FIELDS];
+    let mut nf = 0usize;
+    let mut size: u64 = 0;
+    // §4.5.1 prefix: Required Insert Count (8-bit prefix), S + Delta Base (7-bit prefix)
+    let (_, ric, n1) = match q_int(b, len, 0, 8) {
+        Some(x) => x,
+        None => return (QVerdict::Malformed, fields, 0, 0),
+    };
+    let (_, _db, n2) = match q_int(b, len, n1, 7) {
+        Some(x) => x,
+        None => return (QVerdict::Malformed, fields, 0, 0),
+    };
+    if ric != 0 {
+        // MaxEntries = 0: no conformant encoder produces a non-zero Encoded Required Insert Count (§4.5.1.1)
+        return (QVerdict::Malformed, fields, 0, 0);
+    }
+    let mut pos = n1 + n2;
+    let mut k = 0;
+    while k <= QMAX_FIELDS {
+        if pos >= len {
+            return (QVerdict::Accept, fields, nf, size);
+        }
+        if k == QMAX_FIELDS {
+            return (QVerdict::OutOfBounds, fields, nf, size);
+        }
+        let first = b[pos];
+        let mut f = QField::EMPTY;
+        if first & 0x80 != 0 {
+            // §4.5.2 indexed field line: 1 T index(6+)
+            let (flags, idx, n) = match q_int(b, len, pos, 6) {
+                Some(x) => x,
+                None => return (QVerdict::Malformed, fields, nf, size),
+            };
+            if flags & 1 == 0 || idx >= 99 {
+                return (QVerdict::Malformed, fields, nf, size); // dynamic table / unknown static index
+            }
+            f.name_static = Some(idx as usize);
+            f.value_static = true;
+            pos += n;
+        } else if first & 0xc0 == 0x40 {
+            // §4.5.4 literal with name reference: 0 1 N T index(4+), value string (8-bit prefix incl. H)
+            let (flags, idx, n) = match q_int(b, len, pos, 4) {
+                Some(x) => x,
+                None => return (QVerdict::Malformed, fields, nf, size),
+            };
+            if flags & 1 == 0 || idx >= 99 {
+                return (QVerdict::Malformed, fields, nf, size);
+            }
+            let (v, vl, m) = match q_string(b, len, pos + n, 8) {
+                Ok(x) => x,
+                Err(true) => return (QVerdict::OutOfBounds, fields, nf, size),
+                Err(false) => return (QVerdict::Malformed, fields, nf, size),
+            };
+            f.name_static = Some(idx as usize);
+            f.value = v;
+            f.value_len = vl;
+            pos += n + m;
+        } else if first & 0xe0 == 0x20 {
+            // §4.5.6 literal with literal name: 0 0 1 N H namelen(3+) name, value string
+            let (nm, nl, n) = match q_string(b, len, pos, 4) {
+                Ok(x) => x,
+                Err(true) => return (QVerdict::OutOfBounds, fields, nf, size),
+                Err(false) => return (QVerdict::Malformed, fields, nf, size),
+            };
+            let (v, vl, m) = match q_string(b, len, pos + n, 8) {
+                Ok(x) => x,
+                Err(true) => return (QVerdict::OutOfBounds, fields, nf, size),
+                Err(false) => return (QVerdict::Malformed, fields, nf, size),
+            };
+            f.name = nm;
+            f.name_len = nl;
+            f.value = v;
+            f.value_len = vl;
+            pos += n + m;
+        } else {
+            // §4.5.3 post-base indexed (0001) and §4.5.5 post-base name reference (0000): dynamic table only
+            return (QVerdict::Malformed, fields, nf, size);
+        }
+        size += (f.name_size() + f.value_size() + 32) as u64;
+        if size > limit {
+            return (QVerdict::TooLong, fields, nf, size);
+        }
+        fields[nf] = f;
+        nf += 1;
+        k += 1;
+    }
+    (QVerdict::OutOfBounds, fields, nf, size)
+}
